@@ -46,6 +46,7 @@ type HReq struct {
 	Who      string       `json:"who"`   // tagged user anon whois-error https-cap both-caps plain-empty malformed-grant malformed-types
 	Rules    []model.Rule `json:"rules"` // granted (under the plain cap unless Who says otherwise)
 	Rules2   []model.Rule `json:"rules2"` // under the https:// cap for both-caps
+	Login    string       `json:"login,omitempty"` // the login name the tailnet reports for a user (default alice@example.com)
 	Spoof    string       `json:"spoof"`  // "" or a header claiming another source/identity (X-Forwarded-For, X-Real-Ip, Forwarded, Tailscale-User-Login)
 	Outage   bool         `json:"outage,omitempty"` // the state directory is unavailable while the request is served (only matters if it would write)
 	// the body arrives with Transfer-Encoding: chunked, i.e. without a declared length (any HTTP/1.1
@@ -95,6 +96,13 @@ func rawRules(rs []model.Rule) []tailcfg.RawMessage {
 	return out
 }
 
+func (r HReq) login() string {
+	if r.Login != "" {
+		return r.Login
+	}
+	return "alice@example.com"
+}
+
 // whoisFor renders the tailnet's answer for a request and says which rules
 // must apply, or that the caller cannot be identified.
 func whoisFor(r HReq) (resp *apitype.WhoIsResponse, err error, effective []model.Rule, identified bool) {
@@ -108,7 +116,7 @@ func whoisFor(r HReq) (resp *apitype.WhoIsResponse, err error, effective []model
 		node.Tags = []string{"tag:prod", "tag:web"}
 		caps[capPlain] = rawRules(r.Rules)
 	case "user":
-		prof.LoginName = "alice@example.com"
+		prof.LoginName = r.login()
 		caps[capPlain] = rawRules(r.Rules)
 	case "tagged-with-login":
 		// what tailscaled reports for a tagged device: tags AND the placeholder login name
@@ -117,13 +125,13 @@ func whoisFor(r HReq) (resp *apitype.WhoIsResponse, err error, effective []model
 		caps[capPlain] = rawRules(r.Rules)
 	case "malformed-mixed":
 		// one value of the grant list is not a rule: the grant as a whole cannot be parsed
-		prof.LoginName = "alice@example.com"
+		prof.LoginName = r.login()
 		caps[capPlain] = append(rawRules(append([]model.Rule{{Action: []string{"get", "info", "put", "activate", "delete"}, Secret: []string{"*"}}}, r.Rules...)), `{"action":"get","secret":7}`)
 		identified = false
 	case "malformed-mixed-https":
 		// (a value no parser of rules can take for one: a number where a pattern belongs. A bare string
 		// in place of a one-element list is NOT used as "malformed": a parser may well accept that.)
-		prof.LoginName = "alice@example.com"
+		prof.LoginName = r.login()
 		caps[capHTTPS] = append([]tailcfg.RawMessage{`{"action":["get"],"secret":[7]}`}, rawRules(append([]model.Rule{{Action: []string{"get", "info", "put", "activate", "delete"}, Secret: []string{"*"}}}, r.Rules...))...)
 		identified = false
 	case "anon":
@@ -132,10 +140,10 @@ func whoisFor(r HReq) (resp *apitype.WhoIsResponse, err error, effective []model
 	case "whois-error":
 		return nil, errors.New("tailscaled: no such peer"), nil, false
 	case "https-cap":
-		prof.LoginName = "alice@example.com"
+		prof.LoginName = r.login()
 		caps[capHTTPS] = rawRules(r.Rules)
 	case "both-caps":
-		prof.LoginName = "alice@example.com"
+		prof.LoginName = r.login()
 		caps[capPlain] = rawRules(r.Rules)
 		caps[capHTTPS] = rawRules(r.Rules2)
 		if len(r.Rules) == 0 {
@@ -146,11 +154,11 @@ func whoisFor(r HReq) (resp *apitype.WhoIsResponse, err error, effective []model
 		caps[capPlain] = []tailcfg.RawMessage{}
 		caps[capHTTPS] = rawRules(r.Rules)
 	case "malformed-grant":
-		prof.LoginName = "alice@example.com"
+		prof.LoginName = r.login()
 		caps[capPlain] = []tailcfg.RawMessage{`[1,2]`}
 		identified = false
 	case "malformed-types":
-		prof.LoginName = "alice@example.com"
+		prof.LoginName = r.login()
 		caps[capPlain] = []tailcfg.RawMessage{`{"action":"get","secret":5}`}
 		identified = false
 	}
@@ -669,8 +677,18 @@ func genHReq(rt *rapid.T) HReq {
 		case 2:
 			return nil
 		}
-		return []model.Rule{{Action: rapid.SliceOfNDistinct(rapid.SampledFrom(model.AllActions), 1, 4, func(s string) string { return s }).Draw(rt, label+"-acts"), Secret: []string{rapid.SampledFrom([]string{"a", "dev/*", "*", "b"}).Draw(rt, label+"-pat")}}}
+		// one to three rules under the capability (a grant list is a list: every rule counts, each with
+		// exactly its own actions and patterns; a rule without patterns grants nothing)
+		return rapid.SliceOfN(rapid.Custom(func(rt *rapid.T) model.Rule {
+			ru := model.Rule{Action: rapid.SliceOfNDistinct(rapid.SampledFrom(model.AllActions), 1, 4, func(s string) string { return s }).Draw(rt, label+"-acts")}
+			if rapid.IntRange(0, 5).Draw(rt, label+"-nopat") != 0 {
+				ru.Secret = []string{rapid.SampledFrom([]string{"a", "dev/*", "*", "b"}).Draw(rt, label+"-pat")}
+			}
+			return ru
+		}), 1, 3).Draw(rt, label+"-list")
 	}
+	// login names are identities as they are: letter case and non-ASCII letters included
+	r.Login = rapid.SampledFrom([]string{"", "", "", "Alice.Smith@Example.COM", "OctoCat@github", "ÅSA@example.com"}).Draw(rt, "login")
 	r.Rules = genRules("rules")
 	if r.Who == "both-caps" {
 		r.Rules2 = genRules("rules2")
@@ -721,7 +739,7 @@ func genHReq(rt *rapid.T) HReq {
 
 var c08 = &h.Campaign[HTTPCase]{
 	Prop: "C08", Sub: "frontdoor",
-	Rule: "rapid: a superuser pre-history, then 1-12 requests built by class (construction, not rejection): method, Content-Type, browser header, endpoint (all seven), body class (valid, valid with zero-valued fields omitted, valid with lower-case/extra fields, null, truncated at a generated offset, wrong JSON type, bad base64, version out of range, non-JSON, empty), source address (known, unknown, unparsable), WhoIs answer (tagged, tagged with the placeholder login name, user, anonymous, error, a grant list that mixes valid rules with a non-rule, rules under the plain cap / the https:// cap / both / plain cap present but empty, malformed grants), with 0-3 gates broken per request; rejected => non-2xx, no audit record, dump unchanged; accepted => status and JSON body from the ACL+map model under exactly the effective rules, recorded principal = identity; no non-200 body contains stored values; non-trivial = request rejected by exactly one gate, or accepted with a status other than 200; distinct by scenario",
+	Rule: "rapid: a superuser pre-history, then 1-12 requests built by class (construction, not rejection): method, Content-Type, browser header, endpoint (all seven), body class (valid, valid with zero-valued fields omitted, valid with lower-case/extra fields, null, truncated at a generated offset, wrong JSON type, bad base64, version out of range, non-JSON, empty), source address (known, unknown, unparsable), WhoIs answer (tagged, tagged with the placeholder login name, user, anonymous, error, a grant list that mixes valid rules with a non-rule, rules under the plain cap / the https:// cap / both / plain cap present but empty, malformed grants), with 0-3 gates broken per request; rejected => non-2xx, no audit record, dump unchanged; accepted => status and JSON body from the ACL+map model under exactly the effective rules, recorded principal = identity; no non-200 body contains stored values; grant lists of one to three rules (a rule may lack patterns), login names with upper-case and non-ASCII letters; non-trivial = request rejected by exactly one gate, or accepted with a status other than 200; distinct by scenario",
 	Quick: 3000, Thorough: 600000,
 	Gen: func(rt *rapid.T) HTTPCase {
 		c := genHTTPCase(rt)
